@@ -13,6 +13,9 @@ import vf
 SPECDIR = os.path.join(vf.SPEC, "extra")
 ASAN_ENV = {"ASAN_OPTIONS": "detect_leaks=0:abort_on_error=0:allocator_may_return_null=1",
             "UBSAN_OPTIONS": "print_stacktrace=1"}
+# TLC pretty-prints a long tuple over several lines: the patterns must not depend on the layout
+BAD_RE = re.compile(r'<<\s*"BAD",\s*(\d+)(?:,\s*"([^"]*)")?\s*>>')
+OBS_RE = re.compile(r'<<\s*"OBS",\s*"(\w+)",\s*(\d+)\s*>>')
 TLC_WORKERS = 4          # the machine is shared: generator runs use <= 4 workers, validation <= 5 single-worker JVMs
 
 
@@ -42,10 +45,10 @@ def write_mc(ck, name, base, defs):
     return p
 
 
-def run_gen(ck, module, cfg, tag, prefix, actions, workers=TLC_WORKERS, timeout=900, invariant_is_violation=True, what=""):
+def run_gen(ck, module, cfg, tag, prefix, actions, workers=TLC_WORKERS, timeout=900, invariant_is_violation=True, what="", env=None):
     """model-check a generator/Impl specification exhaustively with coverage; every action in `actions` must be taken.
     returns (TlcResult, cases) - cases are the JSON values printed by the invariant Emit"""
-    r = vf.run_tlc(module, cfg, tag=ck.prop + "_" + tag, workers=workers, coverage=True, timeout=timeout, lib_dirs=[SPECDIR], xmx="4g")
+    r = vf.run_tlc(module, cfg, tag=ck.prop + "_" + tag, workers=workers, coverage=True, timeout=timeout, lib_dirs=[SPECDIR], xmx="4g", env=env)
     if r.error:
         raise vf.Infra("TLC failed on %s: %s" % (os.path.basename(module), r.error))
     account(ck, r, prefix)
@@ -62,7 +65,7 @@ def run_gen(ck, module, cfg, tag, prefix, actions, workers=TLC_WORKERS, timeout=
     return r, tlc_json_prints(r)
 
 
-def dev_selftests_start(ck, jobs, parallel=2):
+def dev_selftests_start(ck, jobs, parallel=2, env=None):
     """jobs: list of (dev name, module, cfg, expected invariant names or None).  Every deviation flag set TRUE must make TLC
     report a violation of the Impl specification (of one of the expected invariants).  The runs are started in the background
     (`parallel` single-worker JVMs at a time) so that they overlap with the driver / validation; join with dev_selftests_join."""
@@ -70,7 +73,7 @@ def dev_selftests_start(ck, jobs, parallel=2):
 
     def go(job):
         dev, module, cfg, exp = job
-        return job, vf.run_tlc(module, cfg, tag=ck.prop + "_" + dev, workers=1, timeout=600, lib_dirs=[SPECDIR], xmx="2g")
+        return job, vf.run_tlc(module, cfg, tag=ck.prop + "_" + dev, workers=1, timeout=600, lib_dirs=[SPECDIR], xmx="2g", env=env)
     return ex, [ex.submit(go, j) for j in jobs]
 
 
@@ -147,9 +150,12 @@ def validate_sharded(ck, spec, trace_path, nshards=4, cfg=None, timeout=900):
             ln = lines[base + v.maxl - 1] if 0 <= base + v.maxl - 1 < n else "?"
             raise vf.Infra("%s cannot consume line %d of %s (no action for this event / evaluation failed): %s" % (
                 spec, base + v.maxl, os.path.basename(trace_path), ln[:400]))
-        for x, why in re.findall(r'<<"BAD", (\d+)(?:, "([^"]*)")?>>', v.out):
+        found = BAD_RE.findall(v.out)
+        if len(found) != v.out.count('"BAD"') or len(OBS_RE.findall(v.out)) != v.out.count('"OBS"'):
+            raise vf.Infra("could not parse every BAD / OBS line printed by %s" % spec)
+        for x, why in found:
             bad.append((base + int(x), why))
-        for d, x in re.findall(r'<<"OBS", "(\w+)", (\d+)>>', v.out):
+        for d, x in OBS_RE.findall(v.out):
             obs.append((d, base + int(x)))
         os.remove(p)
     ck.states += n
@@ -167,8 +173,10 @@ def judge_lines(ck, spec, events, name="selftest", cfg=None):
     v = vf.validate_trace(os.path.join(SPECDIR, spec + ".tla"), cfg or os.path.join(SPECDIR, spec + ".cfg"), p, tag=ck.prop + "_self", xmx="2g")
     if v.error or v.violated or not v.accepted:
         raise vf.Infra("self-test validation (%s): %s %s maxl=%d" % (spec, v.violated, (v.error or "")[-800:], v.maxl))
-    bad = {int(x) for x, _ in re.findall(r'<<"BAD", (\d+)(?:, "([^"]*)")?>>', v.out)}
-    obs = [(d, int(x)) for d, x in re.findall(r'<<"OBS", "(\w+)", (\d+)>>', v.out)]
+    if len(BAD_RE.findall(v.out)) != v.out.count('"BAD"') or len(OBS_RE.findall(v.out)) != v.out.count('"OBS"'):
+        raise vf.Infra("could not parse every BAD / OBS line printed by %s" % spec)
+    bad = {int(x) for x, _ in BAD_RE.findall(v.out)}
+    obs = [(d, int(x)) for d, x in OBS_RE.findall(v.out)]
     return bad, obs
 
 
